@@ -218,4 +218,107 @@ def pqaddChan (m : Mtimes) (q : PQ) (id : Nat) : PQ :=
 /-- `pqstart()`: `pqadd` for every id found under info/, in directory order -/
 def pqstart (m : Mtimes) (ids : List Nat) : PQ := ids.foldl (pqaddChan m) #[]
 
+/-! ## the system-failure paths (SLEEP_SYSFAIL re-insertion, pqfail) and the full `job_close` / `pqadd` -/
+
+/-- `#define SLEEP_SYSFAIL 123` (regenerated from the source) -/
+def SLEEP_SYSFAIL : Int := (Nq.Gen.SLEEP_SYSFAIL : Nat)
+
+/-- the `trouble:` exit of `pass_dochan` (channel file cannot be opened / `getinfo` fails) after
+`prioq_delmin`: `pe.dt = recent + SLEEP_SYSFAIL; prioq_insert(&pqchan[c],&pe)` -/
+def passTrouble (recent : Int) (pe : Elt) (q' : PQ) : PQ :=
+  q'.insert { dt := recent + SLEEP_SYSFAIL, id := pe.id }
+
+/-- outcome of a `stat()`: the file exists (with its mtime), `ENOENT`, or any other error -/
+inductive StatRes where
+  | found (mtime : Int)
+  | noent
+  | err
+  deriving DecidableEq, Repr
+
+structure CloseOut where
+  chan : PQ          -- pqchan[channel] afterwards
+  done : PQ          -- pqdone afterwards
+  removed : Bool     -- the channel file was unlinked
+  deriving Repr
+
+/-- the whole of `job_close(j)` once `refs` reaches 0 (`CHANNELS = 2`: the loop over the other channels is
+one `stat`): `flaghiteof && !numtodo` → unlink; unlink fails → back into the channel heap at
+`now + SLEEP_SYSFAIL`; other channel file exists → nothing ("more channels going"); `ENOENT` → pqdone at
+`now`; other stat error → pqdone anyway ("the only reason for HOPEFULLY"); otherwise (recipients left, or
+the pass was cut short) → back into the channel heap at `retry`. -/
+def jobCloseF (job : Job) (id : Nat) (hiteof : Bool) (numtodo : Nat) (unlinkOk : Bool) (otherStat : StatRes)
+    (now : Int) (q done : PQ) : CloseOut :=
+  if hiteof && numtodo == 0 then
+    if !unlinkOk then { chan := q.insert { dt := now + SLEEP_SYSFAIL, id := id }, done := done, removed := false }
+    else match otherStat with
+      | .found _ => { chan := q, done := done, removed := true }
+      | _ => { chan := q, done := done.insert { dt := now, id := id }, removed := true }
+  else { chan := q.insert { dt := job.retry, id := id }, done := done, removed := false }
+
+/-- the four heaps of qmail-send -/
+structure Heaps where
+  q0 : PQ := #[]
+  q1 : PQ := #[]
+  done : PQ := #[]
+  fail : PQ := #[]
+  deriving Repr
+
+/-- `pqadd(id)` in full: stat info/, todo/, local/, remote/ in this order; any error other than `ENOENT`
+→ `fail:` (pqfail at `now + SLEEP_SYSFAIL`, nothing else inserted); no info file or a todo file → nothing;
+each existing channel file → its heap with `dt = st_mtime`; no channel file → pqdone at `now`. -/
+def pqaddF (now : Int) (info todo ch0 ch1 : StatRes) (id : Nat) (h : Heaps) : Heaps :=
+  let failed : Heaps := { h with fail := h.fail.insert { dt := now + SLEEP_SYSFAIL, id := id } }
+  match info with
+  | .err => failed
+  | .noent => h
+  | .found _ =>
+    match todo with
+    | .found _ => h
+    | .err => failed
+    | .noent =>
+      match ch0, ch1 with
+      | .err, _ => failed
+      | _, .err => failed
+      | .found t0, .found t1 => { h with q0 := h.q0.insert { dt := t0, id := id }, q1 := h.q1.insert { dt := t1, id := id } }
+      | .found t0, .noent => { h with q0 := h.q0.insert { dt := t0, id := id } }
+      | .noent, .found t1 => { h with q1 := h.q1.insert { dt := t1, id := id } }
+      | .noent, .noent => { h with done := h.done.insert { dt := now, id := id } }
+
+/-- the stat outcomes of one message's four queue files -/
+structure Files where
+  info : StatRes := .noent
+  todo : StatRes := .noent
+  ch0 : StatRes := .noent
+  ch1 : StatRes := .noent
+  deriving Repr
+
+/-- the pqfail part of `pass_do()`: `if (prioq_min(&pqfail,&pe)) if (pe.dt <= recent) { prioq_delmin(&pqfail); pqadd(pe.id); }` -/
+def passDoFail (recent now : Int) (files : Nat → Files) (h : Heaps) : Heaps :=
+  match h.fail.min with
+  | none => h
+  | some pe =>
+    if pe.dt ≤ recent then
+      let f := files pe.id
+      pqaddF now f.info f.todo f.ch0 f.ch1 pe.id { h with fail := h.fail.delmin }
+    else h
+
+/-! ## C `long` arithmetic of `nextretry` (overflow) -/
+
+/-- two's-complement wrap-around to 64 bits (what gcc/clang produce on the supported targets for the
+`datetime_sec` operations when the mathematical result does not fit; formally undefined behaviour in C) -/
+def wrap64 (v : Int) : Int := (v + 9223372036854775808) % 18446744073709551616 - 9223372036854775808
+
+/-- every intermediate of `nextretry(birth,c)` fits a `long`: `recent - birth` (only evaluated when
+`birth <= recent`), `n + chanskip`, `n * n`, `birth + n * n`; and `squareroot` itself does not overflow. -/
+def nextretryOk (recent birth : Int) (c : Chan) : Bool :=
+  let x := recent - birth
+  let n := (if birth > recent then 0 else squareroot x) + chanskip c
+  inLong recent && inLong birth && (decide (birth > recent) || (inLong x && sqLoopOk x 16 0 0)) &&
+    inLong n && inLong (n * n) && inLong (birth + n * n)
+
+/-- `nextretry` with every `long` operation wrapped -/
+def nextretryW (recent birth : Int) (c : Chan) : Int :=
+  let n := wrap64 ((if birth > recent then 0 else squareroot (wrap64 (recent - birth))) + chanskip c)
+  wrap64 (birth + wrap64 (n * n))
+
 end Nq.Sched
